@@ -242,6 +242,46 @@ V("f-wz-timeout-not-set", "silent", ["C14"], WZ, "        if deadline and not de
 V("f-wz-translate-swapped", "fire", WZ_PROPS, "inference/conditional_z3.py", "        return cls(consequence, antecedence, existing.textRepresentation, existing.weak)\n",
   "        return cls(antecedence, consequence, existing.textRepresentation, existing.weak)\n")
 
+# ---------------------------------------------------------------------------------- p-entailment
+PE = "inference/p_entailment.py"
+P_PROPS = ["C01"]
+V("s-pe-max-key", "silent", P_PROPS + ["C12"], PE, "        conditionals[min(conditionals, default=1) - 1] = falsified_query\n", "        conditionals[max(conditionals, default=0) + 1] = falsified_query\n", note="fresh key above instead of below")
+V("s-pe-one-call", "silent", P_PROPS + ["C07"], PE,
+  "        if not weakly:\n            partition, _ = consistency(extended_bb, solver=solver_name, weakly=False)\n            return partition is False\n\n        # Pinf algorithm for weakly consistent bases\n        partition, _ = consistency(extended_bb, solver=solver_name, weakly=True)\n        if partition is False:\n            return True\n",
+  "        partition, _ = consistency(extended_bb, solver=solver_name, weakly=weakly)\n        if not weakly:\n            return partition is False\n        if partition is False:\n            return True\n",
+  note="the two partition calls merged, the guard kept")
+V("s-pe-eq-false", "silent", P_PROPS, PE, "            return partition is False\n", "            return partition == False\n")
+V("s-pe-result-local", "silent", P_PROPS + ["C07"], PE, "            return not solver.solve()\n", "            satisfiable = solver.solve()\n            return not satisfiable\n")
+V("f-pe-negation-dropped", "fire", P_PROPS, PE, "        falsified_query = Conditional(Not(query.consequence), query.antecedence, None)\n", "        falsified_query = Conditional(query.consequence, query.antecedence, None)\n")
+V("f-pe-negation-sides", "fire", P_PROPS, PE, "        falsified_query = Conditional(Not(query.consequence), query.antecedence, None)\n", "        falsified_query = Conditional(query.antecedence, Not(query.consequence), None)\n")
+V("f-pe-polarity", "fire", P_PROPS, PE, "            return partition is False\n", "            return partition is not False\n")
+V("f-pe-strict-mode-arg", "fire", P_PROPS, PE, "            partition, _ = consistency(extended_bb, solver=solver_name, weakly=False)\n", "            partition, _ = consistency(extended_bb, solver=solver_name, weakly=True)\n")
+V("f-pe-base-not-extended", "fire", P_PROPS, PE, "            partition, _ = consistency(extended_bb, solver=solver_name, weakly=False)\n", "            partition, _ = consistency(belief_base, solver=solver_name, weakly=False)\n")
+V("f-pe-no-copy", "fire", ["C13"], PE, "        conditionals = belief_base.conditionals.copy()\n", "        conditionals = belief_base.conditionals\n")
+V("f-pe-ext-antecedent", "fire", ["C07"], PE, "            solver.add_assertion(query.antecedence)\n", "            solver.add_assertion(query.consequence)\n")
+V("f-pe-ext-polarity", "fire", ["C07"], PE, "            return not solver.solve()\n", "            return solver.solve()\n")
+V("f-pe-ext-layer", "fire", ["C07"], PE, "        last_layer = partition[-1]\n", "        last_layer = partition[0]\n")
+V("f-pe-ext-material", "fire", ["C07"], PE, "                solver.add_assertion(c.make_not_A_or_B())\n", "                solver.add_assertion(c.make_A_then_B())\n")
+
+# ---------------------------------------------------------------------------------- parser (visitor, wrappers)
+MV = "parser/myVisitor.py"
+WR = "parser/Wrappers.py"
+X_PROPS = ["C10"]
+V("s-vis-and-inline", "silent", X_PROPS, MV, "        left = self.visit(ctx.left)\n        right = self.visit(ctx.right)\n        return And(left, right)\n", "        return And(self.visit(ctx.left), self.visit(ctx.right))\n")
+V("s-vis-none-test", "silent", X_PROPS, MV, "        if ctx.condition() != None:\n            return [c] + self.visit(ctx.condition())\n        return [c]\n", "        if ctx.condition() is not None:\n            return [c] + self.visit(ctx.condition())\n        return [c]\n")
+V("s-vis-top-else", "silent", X_PROPS, MV, "        if v == \"Top\":\n            return Bool(True)\n        if v == \"Bottom\":\n            return Bool(False)\n",
+  "        if v == \"Bottom\":\n            return Bool(False)\n        elif v == \"Top\":\n            return Bool(True)\n")
+V("f-vis-and-as-or", "fire", X_PROPS, MV, "        return And(left, right)\n", "        return Or(left, right)\n")
+V("f-vis-or-operand", "fire", X_PROPS, MV, "        right = self.visit(ctx.right)\n        return Or(left, right)\n", "        right = self.visit(ctx.left)\n        return Or(left, right)\n")
+V("f-vis-negation-dropped", "fire", X_PROPS, MV, "        return Not(self.visit(ctx.formula()))\n", "        return self.visit(ctx.formula())\n")
+V("f-vis-top-bottom-swapped", "fire", X_PROPS, MV, "        if v == \"Top\":\n            return Bool(True)\n", "        if v == \"Top\":\n            return Bool(False)\n")
+V("f-vis-conditional-sides", "fire", X_PROPS, MV, "        c = Conditional(consequent, antecedent, text, weak=False)\n", "        c = Conditional(antecedent, consequent, text, weak=False)\n")
+V("f-vis-bar-sides", "fire", X_PROPS, MV, "        consequent = self.visit(ctx.consequent)\n        antecedent = self.visit(ctx.antecedent)\n        text", "        consequent = self.visit(ctx.antecedent)\n        antecedent = self.visit(ctx.consequent)\n        text")
+V("f-vis-keys-from-zero", "fire", X_PROPS, MV, "                i: c for i, c in enumerate(self.visit(ctx.condition()), start=1)\n", "                i: c for i, c in enumerate(self.visit(ctx.condition()), start=0)\n")
+V("f-vis-duplicate-signature", "fire", X_PROPS, MV, "        if len(signature) != len(set(signature)):\n            raise ValueError(\"Duplicate variables in signature detected\")\n", "")
+V("f-vis-reserved-name", "fire", X_PROPS, MV, "        if \"Top\" in signature:\n            raise ValueError(\"Top is not an allowed variable name\")\n", "")
+V("f-vis-list-dropped", "fire", X_PROPS, MV, "            return [c] + self.visit(ctx.condition())\n", "            return self.visit(ctx.condition())\n")
+
 
 def main():
     hv = os.path.join(HERE, "harvested.json")
